@@ -43,7 +43,10 @@ MANIFEST = {
              "(VOLATILE), everything held at the match is at or below it, everything written later is above it. The "
              "statement for every reliability kind is refuted by a witness (known finding "
              "C04-volatile-besteffort-history); the history statement at full strength is refuted by the GAP-skip "
-             "witness (known finding C04-gap-skip-history). The model is tied to the code by differential "
+             "witness (known finding C04-gap-skip-history); proved part (stage 1: KEEP_ALL writer, unfragmented samples, "
+             "no removal, no deletion, at most 256 samples): after any such schedule with a lossy catch-up and healing "
+             "rounds that drain the network a reliable TRANSIENT_LOCAL reader has been given every retained change. "
+             "The model is tied to the code by differential "
              "correspondence on a deterministic whole-stack simulation; the oracle (a VOLATILE reader presents only "
              "samples written after its match; after healing a reliable TRANSIENT_LOCAL reader presented the retained "
              "history and wait_for_historical_data is answered) judges the real observations."),
